@@ -170,7 +170,7 @@ def gap_scan_problem(fn):
     return None
 
 
-def scan_exhaustion_problem(fn):
+def scan_exhaustion_problem(fn, seen=None):
     """`for n in range(...): if candidate(n) not in P: return` finds a free value only if at least |P|+1 distinct candidates are
     tried (pigeonhole).  Count the candidates (range length plus single candidates tested before the loop) as a polynomial
     in L = len(P) and require count >= L + 1.  Returns a description of the problem or None (also None when the loop is not
@@ -191,10 +191,38 @@ def scan_exhaustion_problem(fn):
                 return self.generic_visit(n)
         return of_expr(R().visit(copy.deepcopy(e)))
 
-    for n in ast.walk(fn):
-        if not (isinstance(n, ast.For) and isinstance(n.iter, ast.Call) and dotted(n.iter.func) == "range"):
+    # the scan may also be written as a search expression: next((cand(n) for n in range(...) if cand(n) not in P), None), possibly
+    # through a named generator and itertools.filterfalse(P.__contains__, ...): brought to one generator expression first
+    import copy as _copy
+
+    from sa import paths as _P
+    from sa.desugar import _FuseGen, simplify_functional
+
+    scans = [n for n in ast.walk(fn) if isinstance(n, ast.For)]
+    if isinstance(fn, (ast.FunctionDef, ast.AsyncFunctionDef)):
+        val_ = _P.value_aliases(fn)
+        for c in ast.walk(fn):
+            if isinstance(c, ast.Call) and dotted(c.func) == "next" and c.args:
+                g = simplify_functional(ast.parse(_P.full(c.args[0], {k: v for k, v in val_.items() if isinstance(v, ast.GeneratorExp)}), mode="eval").body)
+                g = _FuseGen().visit(g)
+                if isinstance(g, ast.GeneratorExp) and len(g.generators) == 1:
+                    ast.fix_missing_locations(g)
+                    pseudo = ast.For(target=g.generators[0].target, iter=g.generators[0].iter,
+                                     body=[ast.If(test=t_, body=[ast.Pass()], orelse=[]) for t_ in g.generators[0].ifs] or [ast.Pass()], orelse=[])
+                    scans.append(pseudo)
+
+    def has_not_in(n_):
+        for c in ast.walk(n_):
+            if isinstance(c, ast.Compare) and isinstance(c.ops[0], ast.NotIn):
+                return True
+            if isinstance(c, ast.UnaryOp) and isinstance(c.op, ast.Not) and isinstance(c.operand, ast.Compare) and isinstance(c.operand.ops[0], ast.In):
+                return True
+        return False
+
+    for n in scans:
+        if not (isinstance(n.iter, ast.Call) and dotted(n.iter.func) == "range"):
             continue
-        if not any(isinstance(c, ast.Compare) and isinstance(c.ops[0], ast.NotIn) for c in ast.walk(n)):
+        if not has_not_in(n):
             continue
         a = n.iter.args
         if len(a) == 1:
@@ -211,6 +239,8 @@ def scan_exhaustion_problem(fn):
         count = (hi - lo) if step == 1 else (lo - hi)
         if "L" not in count.symbols():
             continue  # the range does not depend on the population size: another idiom
+        if seen is not None:
+            seen.append(n)
         # single candidates tested before the loop
         pre = 0
         for st in fn.body if hasattr(fn, "body") else []:
